@@ -198,7 +198,7 @@ impl<'a> Tr<'a> {
         // the receiver: a state variable, or a place rooted at one
         let (read, root, pl) = match self.as_place(recv) {
             Some((b, segs)) if segs.is_empty() => {
-                if !self.is_state_var(&b) {
+                if !self.is_state_var(&b) && !matches!(self.lookup(env, &b), Some(Var { kind: Kind::MutLocal, .. })) {
                     return self.unsupported(sp, format!("call of {what}, which changes its receiver, on something that is not `&mut` state:"));
                 }
                 (lean_ident(&b), b, None)
@@ -238,6 +238,60 @@ impl<'a> Tr<'a> {
         Ok((value, vt))
     }
 
+    /// a closure over the elements of an iterator: `|x| e`, `|&x| e`, `|(a, b)| e`, `|&(a, b)| e` (a `{ e }` body is `e`) →
+    /// (`fun pattern => e`, type of `e`)
+    fn iter_closure(&mut self, clos: &Expr, elem: &Ty, env: &Env) -> Res<(String, Ty)> {
+        let sp = clos.span();
+        let c = match clos {
+            Expr::Closure(c) if c.inputs.len() == 1 && c.capture.is_none() && c.asyncness.is_none() && matches!(c.output, ReturnType::Default) => c,
+            _ => return self.unsupported(sp, "argument of an iterator adaptor (only a closure with one parameter)"),
+        };
+        let mut env2 = env.clone();
+        let pat = self.elem_pattern(&c.inputs[0], elem, &mut env2, sp)?;
+        let body: &Expr = match &*c.body {
+            Expr::Block(b) if b.label.is_none() => match b.block.stmts.as_slice() {
+                [Stmt::Expr(x, None)] => x,
+                _ => return self.unsupported(sp, "closure body (only one expression)"),
+            },
+            x => x,
+        };
+        self.no_hoist += 1;
+        let r = self.expr(body, &env2);
+        self.no_hoist -= 1;
+        let (b, bt) = r?;
+        Ok((format!("fun {pat} => {}", b.s), bt))
+    }
+
+    /// the Lean pattern of `x`, `&x`, `(a, b)`, `&(a, b)`, `_` for an element of type `elem`; the names go into `env`
+    pub(crate) fn elem_pattern(&mut self, p: &Pat, elem: &Ty, env: &mut Env, sp: Span) -> Res<String> {
+        let p = match p {
+            Pat::Reference(r) if r.mutability.is_none() => &*r.pat,
+            p => p,
+        };
+        match (p, elem) {
+            (Pat::Ident(i), _) if i.by_ref.is_none() && i.mutability.is_none() && i.subpat.is_none() => {
+                env.push(var(i.ident.to_string(), elem.clone()));
+                Ok(lean_ident(&i.ident.to_string()))
+            }
+            (Pat::Wild(_), _) => Ok("_".to_string()),
+            (Pat::Tuple(t), Ty::Tuple(ts)) if t.elems.len() == ts.len() => {
+                let mut parts = vec![];
+                for (q, qt) in t.elems.iter().zip(ts) {
+                    match q {
+                        Pat::Ident(i) if i.by_ref.is_none() && i.mutability.is_none() && i.subpat.is_none() => {
+                            env.push(var(i.ident.to_string(), qt.clone()));
+                            parts.push(lean_ident(&i.ident.to_string()));
+                        }
+                        Pat::Wild(_) => parts.push("_".to_string()),
+                        _ => return self.unsupported(sp, "pattern (only names and `_` inside a tuple)"),
+                    }
+                }
+                Ok(format!("({})", parts.join(", ")))
+            }
+            _ => self.unsupported(sp, "pattern over the elements (only `x`, `&x`, `(a, b)`, `&(a, b)`)"),
+        }
+    }
+
     /// is `x` a parameter whose declared type is a generic `E: Into<T>` of the function?
     fn into_var(&self, env: &Env, x: &str) -> bool {
         self.into_params.iter().any(|p| p == x) && self.lookup(env, x).is_some()
@@ -272,6 +326,10 @@ impl<'a> Tr<'a> {
             Expr::Path(p) if p.qself.is_none() && p.path.segments.len() == 1 && p.path.segments[0].arguments.is_none() => {
                 let name = p.path.segments[0].ident.to_string();
                 if name == "self" {
+                    // the receiver of a method that does not change it is a value
+                    if let (true, false, Some(v)) = (self.has_self, self.self_mut, self.lookup(env, "self")) {
+                        return Ok((L::atom("self"), v.ty.clone()));
+                    }
                     return self.unsupported(e.span(), "`self` as a value");
                 }
                 if name == "None" {
@@ -372,7 +430,7 @@ impl<'a> Tr<'a> {
                     if let Some((b, segs)) = self.as_place(&u.expr) {
                         if segs.is_empty() {
                             if let Some(v) = self.lookup(env, &b) {
-                                if matches!(v.kind, Kind::MutBorrow(_)) {
+                                if matches!(v.kind, Kind::MutBorrow(_) | Kind::ElemMut) {
                                     return Ok((L::atom(lean_ident(&b)), v.ty.clone()));
                                 }
                             }
@@ -501,7 +559,45 @@ impl<'a> Tr<'a> {
                 }
                 Ok((L::comp(format!("if {c} then {} else {}", la.s, lb.s)), if ta == Ty::Unknown { tb } else { ta }))
             }
-            Expr::Match(_) => self.unsupported(e.span(), "`if`/`match` as an operand (allowed as a statement or as the result of a block)"),
+            Expr::Macro(m) if m.mac.path.is_ident("vec") => {
+                use syn::parse::Parser;
+                let elems = match syn::punctuated::Punctuated::<Expr, syn::token::Comma>::parse_terminated.parse2(m.mac.tokens.clone()) {
+                    Ok(p) => p,
+                    Err(_) => return self.unsupported(e.span(), "`vec!` (only `vec![a, b, …]`)"),
+                };
+                let mut ls = vec![];
+                let mut et = Ty::Unknown;
+                for x in &elems {
+                    let (l, t) = self.expr(x, env)?;
+                    if et == Ty::Unknown {
+                        et = t;
+                    } else if !assignable(&et, &t) {
+                        return self.err(e.span(), "the elements of the `vec!` have different types");
+                    }
+                    ls.push(l.s);
+                }
+                Ok((L::atom(format!("[{}]", ls.join(", "))), Ty::Vec(Box::new(et))))
+            }
+            Expr::Match(_) => {
+                // a `match` as an operand: on one line, every arm a pure value
+                self.no_hoist += 1;
+                self.match_depth += 1;
+                let lines = self.control(e, env, Mode::Value, &[]);
+                self.match_depth -= 1;
+                self.no_hoist -= 1;
+                let mut parts = vec![];
+                for l in lines? {
+                    let l = match l.find("  -- ") {
+                        Some(k) => l[..k].trim().to_string(),
+                        None => l.trim().to_string(),
+                    };
+                    if l.is_empty() || l.starts_with("--") {
+                        continue;
+                    }
+                    parts.push(if l.starts_with("let ") { format!("{l};") } else { l });
+                }
+                Ok((L::atom(parts.join(" ")), Ty::Unknown))
+            }
             Expr::Return(_) => self.unsupported(e.span(), "`return` inside an expression"),
             _ => self.unsupported(e.span(), "expression"),
         }
@@ -521,6 +617,17 @@ impl<'a> Tr<'a> {
             Some(t) => t,
             None => return self.err(sp, format!("no Lean type given for the Rust type `{name}` (use --type {name}=<LeanType>)")),
         };
+        if self.opts.transparent.iter().any(|t| *t == name) {
+            if s.fields.len() != 1 || fields.len() != 1 {
+                return self.unsupported(sp, "literal of a transparent struct");
+            }
+            let ft = self.ty(&fields[0].1)?;
+            let (v, vt) = self.expr(&s.fields[0].expr, env)?;
+            if !assignable(&ft, &vt) {
+                return self.err(sp, format!("type of the value given for the field `{}`", fields[0].0));
+            }
+            return Ok((v, ty));
+        }
         let mut items: Vec<String> = vec![];
         for fv in &s.fields {
             let f = match &fv.member {
@@ -852,6 +959,7 @@ impl<'a> Tr<'a> {
                 let is_index = |t: &Ty| matches!(t, Ty::Int(64, _) | Ty::Int(0, _));
                 match (name.as_str(), m.args.len()) {
                     ("len", 0) => return Ok((L::comp(format!("vecLen {}", pl.read())), Ty::usize())),
+                    ("iter", 0) => return Ok((L::atom(pl.read()), Ty::Iter(Box::new(elem)))),
                     ("get", 1) | ("get_mut", 1) | ("get_unchecked", 1) | ("get_unchecked_mut", 1) => {
                         let (i, it) = self.expr(&m.args[0], env)?;
                         if !is_index(&it) {
@@ -912,6 +1020,29 @@ impl<'a> Tr<'a> {
                     self.inh.insert(lean.clone());
                 }
                 Ok((L::comp(format!("optUnwrap {}", r.arg())), (**inner).clone()))
+            }
+            (Ty::Vec(elem), "iter", 0) => Ok((r, Ty::Iter(elem.clone()))),
+            (Ty::Vec(_), "len", 0) => Ok((L::comp(format!("vecLen {}", r.arg())), Ty::usize())),
+            (Ty::Iter(_), "cloned", 0) | (Ty::Iter(_), "copied", 0) => Ok((r, rt.clone())),
+            (Ty::Iter(elem), "collect", 0) => Ok((r, Ty::Vec(elem.clone()))),
+            (Ty::Iter(elem), "chain", 1) => {
+                let (o, ot) = self.expr(&m.args[0], env)?;
+                if !matches!(&ot, Ty::Iter(oe) if assignable(elem, oe)) {
+                    return self.unsupported(sp, "argument of `chain` (only another iterator over the same element type)");
+                }
+                Ok((L::comp(format!("{} ++ {}", r.arg(), o.arg())), rt.clone()))
+            }
+            (Ty::Iter(elem), "any", 1) | (Ty::Iter(elem), "all", 1) | (Ty::Iter(elem), "map", 1) => {
+                let (f, bt) = self.iter_closure(&m.args[0], elem, env)?;
+                match name.as_str() {
+                    "map" => Ok((L::comp(format!("List.map ({f}) {}", r.arg())), Ty::Iter(Box::new(bt)))),
+                    _ => {
+                        if bt != Ty::Bool && bt != Ty::Unknown {
+                            return self.err(sp, format!("the closure given to `{name}` does not yield a bool"));
+                        }
+                        Ok((L::comp(format!("List.{name} {} ({f})", r.arg())), Ty::Bool))
+                    }
+                }
             }
             (Ty::Opt(inner), "map_or", 2) => {
                 // o.map_or(d, f) with `f` an enum constructor `E::V` or a closure `|x| e`
